@@ -132,7 +132,7 @@ func c10(g *Gen) {
 		if hasText {
 			// a file type of the tool's own with a formatter that returns its input: a long text file
 			t.gens = append(t.gens, &recGen{name: "gtext", filter: map[int]bool{}, typeErr: -1, namersNil: true, fileType: "text", fileName: "notes.txt", log: &log,
-				initOut: strings.Repeat(fmt.Sprintf("a line of notes, %d\n", i), 40+g.R.Intn(300))})
+				initOut: strings.Repeat(fmt.Sprintf("a line of notes, %d\n", i), 40+g.R.Intn(300)) + map[bool]string{true: "last line without a newline", false: ""}[i%2 == 0]})
 		}
 		mkctx := func(verify bool) *generator.Context {
 			return &generator.Context{Namers: namer.NameSystems{}, FileTypes: map[string]generator.FileType{"golang": generator.NewGolangFile(),
@@ -227,6 +227,9 @@ func c10(g *Gen) {
 			}
 			if hasText {
 				cls = append(cls, "long-file-of-a-type-with-identity-formatter")
+				if i%2 == 0 {
+					cls = append(cls, "text-file-without-final-newline")
+				}
 			}
 			if kind == "verify" && err == nil {
 				cls = append(cls, "verify-ok")
